@@ -68,6 +68,14 @@ fn codec_one(n: RNum, acc: &mut Acc, via_doc: bool) {
 
 fn views_one(n: RNum, num: &Number, acc: &mut Acc) {
     let (vi, vu, vf) = (num.as_i64(), num.as_u64(), num.as_f64());
+    // the same views asked of the value tree
+    {
+        let t = jsonb::Value::Number(num.clone());
+        let tv = (t.as_i64(), t.as_u64(), t.as_f64().map(|f| f.to_bits()), t.is_i64(), t.is_u64(), t.is_f64(), t.is_number());
+        if tv != (vi, vu, vf.map(|f| f.to_bits()), vi.is_some(), vu.is_some(), vf.is_some(), true) {
+            acc.vio("view:Value-accessors-differ-from-Number-views", || json!({"number": format!("{:?}", n), "value_views": format!("{:?}", tv)}));
+        }
+    }
     if !n.view_i64_admissible(vi) {
         acc.vio("view:as_i64-not-exact-or-absent", || json!({"number": format!("{:?}", n), "as_i64": vi}));
     }
@@ -140,6 +148,33 @@ fn lenient(p: &[u8]) -> Option<(Option<RNum>, bool)> {
             Some((Some(RNum::f(f)), f.is_finite()))
         }
         _ => None,
+    }
+}
+
+/// the same number payload inside a document (scalar root): the document decoders must reject what
+/// `Number::decode` rejects and read what it reads
+fn malformed_via_document(b: &[u8], acc: &mut Acc) {
+    let mut doc = vec![0x20, 0, 0, 0];
+    doc.extend_from_slice(&(0x2000_0000u32 | b.len() as u32).to_be_bytes());
+    doc.extend_from_slice(b);
+    let direct = guard(|| Number::decode(b).ok().map(|x| from_num_raw(&x)));
+    for (name, r) in [("parse_jsonb", guard(|| jsonb::parse_jsonb(&doc).ok().map(|v| from_value_raw(&v)))), ("from_slice", guard(|| jsonb::from_slice(&doc).ok().map(|v| from_value_raw(&v))))] {
+        acc.eval();
+        match (&direct, r) {
+            (Ok(d), Ok(v)) => {
+                let same = match (d, &v) {
+                    (None, None) => true,
+                    (Some(x), Some(RVal::Num(y))) => x == y,
+                    // from_slice may still read the bytes as JSON text when they are not JSONB
+                    (None, Some(_)) => name == "from_slice" && refmodel::text::relaxed_json(&doc).is_ok(),
+                    _ => false,
+                };
+                if !same {
+                    acc.vio(&format!("malformed:{}-disagrees-with-Number::decode", name), || json!({"payload": hex(b), "Number::decode": format!("{:?}", d), "document": format!("{:?}", v)}));
+                }
+            }
+            _ => acc.vio(&format!("malformed:{}:panic", name), || json!({"payload": hex(b)})),
+        }
     }
 }
 
@@ -220,6 +255,23 @@ pub fn spaces(tier: Tier) -> Vec<Space<'static>> {
             b[k] = (v >> (8 * (len - 1 - k))) as u8;
         }
         malformed_one(&b[..len], acc)
+    }));
+    // the same payloads as the number of a scalar document, through both document decoders
+    sp.push(Space::new("malformed-len0-2 and tag x width payloads through parse_jsonb / from_slice", 1 + 256 + 65536 + 256 * 9, |i, acc| {
+        if i < 1 + 256 + 65536 {
+            let mut b = [0u8; 2];
+            let (len, v) = if i == 0 { (0, 0) } else if i < 257 { (1, i - 1) } else { (2, i - 257) };
+            for k in 0..len {
+                b[k] = (v >> (8 * (len - 1 - k))) as u8;
+            }
+            malformed_via_document(&b[..len], acc)
+        } else {
+            let j = i - (1 + 256 + 65536);
+            let (tag, len) = ((j / 9) as u8, (j % 9) as usize + 2);
+            let mut b = vec![0x7Fu8; len];
+            b[0] = tag;
+            malformed_via_document(&b, acc)
+        }
     }));
     const MARK: [u8; 16] = [0x00, 0x01, 0x0F, 0x10, 0x1F, 0x20, 0x2F, 0x30, 0x40, 0x50, 0x5F, 0x60, 0x70, 0x7F, 0x80, 0xFF];
     sp.push(Space::new("malformed-len4-10", 7 * 256 * 16 * 16, |i, acc| {
